@@ -1114,14 +1114,14 @@ Qed.
 Lemma illegal_axis_rejected lo hi a ax : axes_sel (length (nsh a)) ax = None ->
   q_sum ax a = RErr /\ q_mean ax a = RErr /\ q_max lo ax a = RErr /\ q_min hi ax a = RErr /\
   q_argmax lo ax a = RErr /\ q_argmin hi ax a = RErr /\ q_median hi ax a = RErr /\
-  q_sort hi ax a = RErr /\ (nsh a <> [] -> forall isall, q_anyall isall ax a = RErr).
+  q_sort hi ax a = RErr /\ (forall isall, q_anyall isall ax a = RErr).
 Proof.
   intro H. unfold q_sum, q_mean, q_max, q_min, q_argmax, q_argmin, q_median.
   rewrite !skel_illegal by exact H. repeat split; auto.
   - destruct ax; reflexivity.
   - destruct ax; reflexivity.
   - unfold q_sort. rewrite H. destruct ax; reflexivity.
-  - intros Hs isall. unfold q_anyall. destruct (nsh a); [congruence|]. rewrite H. reflexivity.
+  - intros isall. unfold q_anyall. rewrite H. reflexivity.
 Qed.
 
 Lemma zero_sized_results lo hi a ax sel : nsh a <> [] -> size (nsh a) = 0 ->
@@ -1159,11 +1159,11 @@ Lemma shapeless_results lo hi a ax sel : nsh a = [] -> axes_sel 0 ax = Some sel 
   q_sum ax a = self_res a unit /\ q_mean ax a = self_res a unit /\
   q_max lo ax a = self_res a unit /\ q_min hi ax a = self_res a unit /\
   q_median hi ax a = self_res a unit /\
-  (forall isall ax', q_anyall isall ax' a = self_res a (fun v => bz (nz v))).
+  (forall isall, q_anyall isall ax a = self_res a (fun v => bz (nz v))).
 Proof.
   intros Hs Hsel. unfold q_sum, q_mean, q_max, q_min, q_median.
   rewrite !(skel_shapeless _ _ _ _ _ _ _ sel Hs Hsel). repeat split; auto.
-  intros isall ax'. unfold q_anyall. rewrite Hs. reflexivity.
+  intros isall. unfold q_anyall. rewrite Hs. simpl length. rewrite Hsel. reflexivity.
 Qed.
 
 (* Vector / Matrix items and derivative components: the same rule, component by
@@ -1176,4 +1176,14 @@ Proof.
   intros Hs Hz Hsel. apply Forall_forall. intros v _. split.
   - apply q_sum_ok; auto.
   - apply q_mean_ok; auto.
+Qed.
+
+(* sort of a zero-sized object: nothing to sort; NumPy's shape (flattened for axis=None) *)
+Lemma q_sort_zero hi a ax sel : (forall l, ax <> AxTup l) -> size (nsh a) = 0 ->
+  axes_sel (length (nsh a)) ax = Some sel ->
+  exists r, q_sort hi ax a = ROk r /\
+            rsh r = match ax with AxNone => [size (nsh a)] | _ => nsh a end.
+Proof.
+  intros Hax Hz Hsel. unfold q_sort. destruct ax as [|z|lz]; [| |exfalso; eapply Hax; eauto];
+    rewrite Hsel, Hz; simpl; eexists; split; reflexivity.
 Qed.
